@@ -188,6 +188,9 @@ func (c *Component) SendIQ(ctx context.Context, iq *stanza.IQ) (chan stanza.IQ, 
 	if err := c.Send(iq); err != nil {
 		return nil, err
 	}
+	if verifEnabled {
+		vpoint("sendiq.written", "id", iq.Attrs.Id)
+	}
 	return c.router.NewIQResultRoute(ctx, iq.Attrs.Id), nil
 }
 
